@@ -21,6 +21,16 @@
 #include <nop/base/handle.h>
 #include <nop/status.h>
 
+#ifndef VT_GHOST_ENSURE
+#define VT_GHOST_ENSURE
+namespace vt {
+// ghost: bytes the last successful Ensure() on the reference reader vouched for, and resize() calls of the std
+// models that asked for more than that (C02: no allocation sized by an unchecked length field)
+static unsigned long g_ensured_bytes = 0;
+static unsigned long g_unensured_resize = 0;
+}
+#endif
+
 namespace vt {
 
 struct SpecReader {
@@ -44,6 +54,8 @@ struct SpecReader {
     return f;
   }
   void Init(const std::uint8_t* bytes, std::size_t length) {
+    g_ensured_bytes = 0;
+    g_unensured_resize = 0;
     src = bytes;
     len = length;
     pos = 0;
@@ -57,6 +69,7 @@ struct SpecReader {
   nop::Status<void> Ensure(std::size_t size) {
     if (Fault()) return Fail(fail_code);
     if (size > len - pos) return Fail(static_cast<int>(nop::ErrorStatus::ReadLimitReached));
+    g_ensured_bytes = size;
     return {};
   }
   nop::Status<void> Read(std::uint8_t* byte) {
